@@ -53,10 +53,15 @@ Theorem C13_decode_hides_protocol_headers :
 Proof. exact decode_hides_protocol_headers. Qed.
 Print Assumptions C13_decode_hides_protocol_headers.
 
-(* (5) the character classes of the model are the ones in the source, and the reserved names the
-   property lists are reserved in the source (Gen.Facts is regenerated from /repo on every run) *)
+(* (5) the compiled _KEY_RE / _VALUE_RE of the source, as used (whole-string match), are "one or more
+   characters of a set" and the set is exactly the model's character predicate; the reserved names the
+   property lists are reserved in the source (Gen.Facts is regenerated from /repo's live modules on every run;
+   a regular expression is stated by what it accepts, not by how it is spelled) *)
 Theorem C13_source_facts :
-  key_re_src = s2z "^[0-9a-z_.\-]+$" /\ value_re_src = s2z "^[ !-~]+$" /\
+  key_re_sem = ([(chars_of key_char, 1, -1)], 0, []) /\
+  value_re_sem = ([(chars_of value_char, 1, -1)], 0, []) /\
+  (forall c, In c (chars_of key_char) <-> key_char c = true) /\
+  (forall c, In c (chars_of value_char) <-> value_char c = true) /\
   mem_str (s2z "te") special = true /\ mem_str (s2z "content-type") special = true /\
   mem_str (s2z "user-agent") special = true.
 Proof. exact source_facts. Qed.
